@@ -38,6 +38,59 @@ fn main()
 	let mut emit = |addr: u32, i: &Instruction, out: &mut Out| { if sh.mine() { let c = format!("S {:x} {}", addr, fmt_instr(i)); let r = run_case(&c); out.line(&c, &r); } };
 	let addrs: Vec<u32> = if thorough { vec![0x20000000, 0x20000002, 0, 2, 0x10000100, 0x1FFFFFFE, 0x7FFFFFFC, 0x80000000, 0xFFFFFFF0, 0xFFFFFFFA, 0xFFFFFFFC, 0xFFFFFFFE] }
 		else { vec![0x20000000, 0x20000002, 0, 0xFFFFFFF0, 0xFFFFFFFC] };
+	// audit: Display is total on `Instruction`, but everything below prints only values that come out of the decoder.
+	// Fixed cases for the arms / operand values the decoder never produces (negative and extreme immediates, LDR with
+	// PC base and a register offset, odd and out-of-range PC-relative offsets, register lists with bits 8..15, PC / SP
+	// in every register slot) and for odd addresses.  None of them is encodable, so the driver compares the printed
+	// text with the model only (no re-assembly verdict).
+	{
+		use trion::arm6m::asm::ImmReg::{Immediate as I, Register as R};
+		use trion::arm6m::regset::RegisterSet;
+		use Instruction::*;
+		let odd: [(u32, Instruction); 40] = [
+			(0x20000000, Add{flags: true, dst: reg(0), lhs: reg(1), rhs: I(-5)}),
+			(0x20000000, Add{flags: false, dst: reg(13), lhs: reg(13), rhs: I(i32::MIN)}),
+			(0x20000001, Add{flags: false, dst: reg(15), lhs: reg(15), rhs: I(i32::MAX)}),
+			(0x20000000, Add{flags: true, dst: reg(0), lhs: reg(13), rhs: R(reg(0))}),
+			(0x20000000, Sub{flags: true, dst: reg(8), lhs: reg(9), rhs: I(-1)}),
+			(0x20000000, Sub{flags: false, dst: reg(15), lhs: reg(13), rhs: R(reg(13))}),
+			(0x20000000, Cmp{lhs: reg(12), rhs: I(i32::MIN)}),
+			(0x20000000, Mov{flags: false, dst: reg(15), src: I(-1)}),
+			(0x20000000, Lsl{dst: reg(9), value: reg(10), shift: I(-32)}),
+			(0x20000000, Lsr{dst: reg(1), value: reg(2), shift: I(0)}),
+			(0x20000000, Asr{dst: reg(1), value: reg(2), shift: I(33)}),
+			(0x20000000, Ldr{dst: reg(0), addr: reg(15), off: R(reg(1))}),
+			(0x20000000, Ldr{dst: reg(0), addr: reg(15), off: I(-4)}),
+			(2, Ldr{dst: reg(0), addr: reg(15), off: I(-8)}),
+			(0, Ldr{dst: reg(0), addr: reg(15), off: I(i32::MIN)}),
+			(0xFFFFFFFE, Ldr{dst: reg(7), addr: reg(15), off: I(i32::MAX)}),
+			(0x20000003, Ldr{dst: reg(8), addr: reg(15), off: I(3)}),
+			(0x20000000, Ldr{dst: reg(14), addr: reg(12), off: I(0x12345)}),
+			(0x20000000, Ldrb{dst: reg(0), addr: reg(15), off: I(-1)}),
+			(0x20000000, Strb{src: reg(15), addr: reg(15), off: I(-i32::MAX)}),
+			(0x20000000, Strh{src: reg(13), addr: reg(14), off: R(reg(15))}),
+			(0x20000000, Ldrsh{dst: reg(15), addr: reg(14), off: reg(13)}),
+			(0x20000000, Adr{dst: reg(0), off: 0xFFFF}),
+			(0xFFFFFFFD, Adr{dst: reg(15), off: 1}),
+			(3, Adr{dst: reg(8), off: 0x3FD}),
+			(0x20000000, B{cond: cond(0), off: 1}),
+			(0x20000001, B{cond: cond(14), off: -1}),
+			(0x20000000, B{cond: cond(5), off: i32::MAX}),
+			(0xFFFFFFFC, B{cond: cond(14), off: i32::MAX}),
+			(0, B{cond: cond(14), off: i32::MIN}),
+			(0x20000000, Bl{off: 1}),
+			(0x20000003, Bl{off: i32::MIN}),
+			(1, Bl{off: i32::MAX}),
+			(0x20000000, Bl{off: 0x1000000}),
+			(0x20000000, Ldm{addr: reg(15), registers: RegisterSet::of(0xFFFF)}),
+			(0x20000000, Stm{addr: reg(13), registers: RegisterSet::of(0x8001)}),
+			(0x20000000, Pop{registers: RegisterSet::of(0)}),
+			(0x20000000, Pop{registers: RegisterSet::of(0x7F00)}),
+			(0x20000000, Push{registers: RegisterSet::of(0xFFFF)}),
+			(0x20000000, Mrs{dst: reg(13), src: sys(20)}),
+		];
+		for (a, i) in odd.iter() { emit(*a, i, &mut out); }
+	}
 	// every decodable 16-bit pattern
 	for h in 0..=0xFFFFu32
 	{
